@@ -95,7 +95,7 @@ def agree(spec):
     else:
         allowed = np.full(xr.size, 1e-10 * gscale)
     # (along a variable with lb == ub nothing can be differenced and nothing is needed: not compared)
-    mov = np.asarray(p.lb) < np.asarray(p.ub)
+    mov = (np.asarray(p.ub) - np.asarray(p.lb)) > 20.0 * hv      # (nor along a variable whose box leaves no room for the stencil)
     err = np.abs(np.asarray(rfd.jac, float) / sfac - gex)
     gerr = float(np.max((err / allowed)[mov])) if mov.any() else 0.0
     gtol_fd = 1.0
@@ -122,6 +122,10 @@ def agree_specs(ctx):
                 out[-1]["kwargs"]["finite_diff_rel_step"] = float(rng.choice([1e-5, 1e-6]))
         if i % 6 == 5:
             out[-1]["scaler"] = float(rng.choice([0.25, 8.0, 64.0]))
+        if i % 7 == 3 and "far_start" not in out[-1]:
+            # far from the origin, with boxes that are narrow relative to |x| but wide relative to the differencing step
+            out[-1]["shift"] = float(rng.choice([300.0, 1000.0]))
+            out[-1]["box_kinds"] = ["narrow", "narrow", "box", "lo", "up"]
         if mode == "none" and i % 8 == 0:
             out[-1]["kwargs"]["eps"] = float(rng.choice([1e-6, 1e-7]))
         elif mode in ("2-point", "3-point") and i % 8 in (1, 2):
